@@ -82,9 +82,23 @@ def run_candidates(c, cands):
     return [(inp, impl, model, spec) for _, inp, impl, model, spec in iter_joined(cs, mo)]
 
 
+def rle(act):
+    """Run-length form of an action list, for reading long replays: 'm0 x270,g0,m0'."""
+    out, prev, n = [], None, 0
+    for a in [x for x in act.split(",") if x] + [None]:
+        if a == prev:
+            n += 1
+            continue
+        if prev is not None:
+            out.append(prev if n == 1 else "%s x%d" % (prev, n))
+        prev, n = a, 1
+    return ",".join(out)
+
+
 def shrink(c, f):
-    """Greedy shrinking: cut the history after the rejected answer, then drop single actions
-    (never a Duplicate/Clone, which would renumber the members) while the rejection remains."""
+    """Greedy shrinking: cut the history after the rejected answer, drop windows of actions from long
+    histories, then drop single actions (never a Duplicate/Clone, which would renumber the members)
+    while the rejection remains."""
     kv = fields(f["input"])
     route, pro = kv.get("route", "api"), kv.get("pro", "")
     acts = [a for a in kv.get("act", "").split(",") if a]
@@ -97,7 +111,25 @@ def shrink(c, f):
                 acts = acts[:i + 1]
                 break
     best = None
-    for _ in range(50):
+    # long histories: remove whole windows of actions first (delta debugging, bounded)
+    chunk, rounds = len(acts) // 2, 0
+    while len(acts) > 60 and chunk >= 8 and rounds < 16:
+        rounds += 1
+        wins = []
+        for start in range(0, len(acts), chunk):
+            keep = [a for i, a in enumerate(acts) if not (start <= i < start + chunk) or a[0] in "DC"]
+            if len(keep) < len(acts):
+                wins.append(keep)
+        res = run_candidates(c, [(route, pro, ",".join(acts))] + [(route, pro, ",".join(w)) for w in wins])
+        if len(res) != len(wins) + 1 or res[0][3] == "ok":
+            break
+        best = res[0]
+        hit = [w for w, r in zip(wins, res[1:]) if r[3] not in ("ok", "-")]
+        if hit:
+            acts = min(hit, key=len)
+        else:
+            chunk //= 2
+    for _ in range(50 if len(acts) <= 60 else 0):
         cands = [(route, pro, ",".join(acts))]
         idx = [i for i, a in enumerate(acts) if a[0] not in "DC"]
         for i in idx:
@@ -177,6 +209,7 @@ def main(argv):
                 kv = fields(f["input"])
             f["kind"] = "the implementation's answers are rejected by the injective-table specification (spec_check): " + f["specification"]
             f["actions"] = kv.get("act", "")
+            f["actions_run_length"] = rle(kv.get("act", ""))
             f["prologue"] = kv.get("pro", "")
             f["replay"] = ("fresh family (route api: NewZlispWithFuncs({}); route script: NewZlisp+StandardSetup+defmac mgs), prologue, then the actions: "
                            "M<i>:<name> = member i MakeSymbol, G<i>:<p> = GenSymbol / (gensym \"p\"), D<i>/C<i> = Duplicate/Clone, S = (str2sym), R = (quote name), "
